@@ -550,7 +550,7 @@ namespace riddle
         }
     }
 
-    char lexer::next_char() noexcept
+    int lexer::next_char() noexcept
     {
         if (pos == sb.length())
             return -1;
@@ -581,7 +581,7 @@ namespace riddle
             end_pos++;
             break;
         }
-        return sb[pos++];
+        return static_cast<unsigned char>(sb[pos++]);
     }
 
     token *lexer::finish_id(std::string &str) noexcept
